@@ -57,23 +57,30 @@ Proof. split; vm_compute; reflexivity. Qed.
 Lemma gate_map_irrelevant t m m' : gate t (VMap m) = gate t (VMap m').
 Proof. destruct t; reflexivity. Qed.
 
+Lemma gate_arr_irrelevant t a a' : gate t (VArr a) = gate t (VArr a').
+Proof. destruct t; reflexivity. Qed.
+
+(* with arrays in the value domain: either the declared type admits maps, or the local already held an array (which
+   PutIndexed keeps an array, see ArrayProofs.put_indexed_keeps_kind) and the type admits arrays *)
 Lemma indexed_assignment_gated x vs v st fs r t st' :
   stk st = fs :: r -> fs_type x fs = Some t ->
-  (forall m, fs_get x fs = Some (VMap m) -> gate t (VMap m) = true) ->
+  (forall c, fs_get x fs = Some c -> is_coll c = true -> gate t c = true) ->
   assign_local_indexed x vs v st = Ok (RO ONormal, st') ->
-  forall m, gate t (VMap m) = true.
+  (forall m, gate t (VMap m) = true) \/ (exists a, fs_get x fs = Some (VArr a) /\ forall a', gate t (VArr a') = true).
 Proof.
-  intros Hs Ht Hwt H m. unfold assign_local_indexed in H. rewrite Hs in H.
+  intros Hs Ht Hwt H. unfold assign_local_indexed in H. rewrite Hs in H.
   assert (Hfresh : of_pres (fresh_indexed vs v)
             (fun m0 => match a_set x (VMap m0) (fs :: r) with
                        | Some s => ro ONormal (set_stk s st)
                        | None => ro OErr st
-                       end) st = Ok (RO ONormal, st') -> gate t (VMap m) = true).
+                       end) st = Ok (RO ONormal, st') -> forall m, gate t (VMap m) = true).
   { unfold of_pres. destruct (fresh_indexed vs v) as [m0| |]; try discriminate.
-    destruct (a_set x (VMap m0) (fs :: r)) as [s|] eqn:E; [|discriminate]. intros _.
+    destruct (a_set x (VMap m0) (fs :: r)) as [s|] eqn:E; [|discriminate]. intros _ m.
     rewrite (gate_map_irrelevant t m m0). eapply C14.StackProofs.set_respects_gate; eauto. }
-  destruct (fs_get x fs) as [[| | | | |cur]|] eqn:Eg; auto.
-  rewrite (gate_map_irrelevant t m cur). now apply Hwt.
+  destruct (fs_get x fs) as [c|] eqn:Eg; [|left; now apply Hfresh].
+  destruct c; cbn [is_coll is_map is_arr orb] in H; try (left; now apply Hfresh).
+  - left. intros m0. rewrite (gate_map_irrelevant t m0 m). now apply Hwt.
+  - right. exists l. split; [reflexivity|]. intros a'. rewrite (gate_arr_irrelevant t a' l). now apply Hwt.
 Qed.
 
 (* ---- emit @name, "a", "b" on a two-level map = the records of the two-level grouping, in map order *)
@@ -123,7 +130,7 @@ Proof.
   intros Hab Han Hbn. induction m as [|[k1 v1] m IH]; intros fuel st Hl Hf; (destruct fuel as [|f]; [cbn in Hf; lia|]).
   - reflexivity.
   - cbn [two_level forallb snd] in Hl. apply andb_true_iff in Hl. destruct Hl as [Hv Hl].
-    destruct v1 as [| | | | |m1]; try discriminate.
+    destruct v1 as [| | | | |m1|]; try discriminate.
     cbn [run step]. cbn [mput total2] in *.
     rewrite (emit_inner fns name a b k1 Hab Han Hbn m1 f st Hv) by lia.
     cbn [bind]. rewrite IH; [|exact Hl|lia].
